@@ -4,7 +4,7 @@
    IU/RoundTrip.v proves join(split(I)) = I in the model.  Partial: the identity of an empty rewrite through apply() and the
    alignment of blocks after a rewrite are decided on the implementation by harness/c10.py. *)
 From Coq Require Import ZArith List Bool Arith.
-From GR Require Import Base.Result IR.State IU.Model IU.Proofs IU.RoundTrip IU.Groups.
+From GR Require Import Base.Result IR.State IR.Modify IR.AlignJoin IU.Model IU.Proofs IU.RoundTrip IU.Groups.
 Import ListNotations.
 Open Scope Z_scope.
 
@@ -143,3 +143,22 @@ Proof.
   eexists. exists (mk_iblk 2 5 1 true), 4.
   split; [vm_compute; reflexivity|]. split; [cbn; tauto|]. split; [reflexivity|]. vm_compute. discriminate.
 Qed.
+
+(* ---- joining blocks: the alignment table (the hand-over in _modify/join.py, part of the IR model that is run against apply()) ---- *)
+(* the joined block asks for the stronger of the two requirements, the departed block has no entry, nothing else changes, and a
+   non-empty block is never joined with a more strongly aligned successor *)
+Theorem C10_join_keeps_the_stronger_alignment : forall s b1 b2 zero1 s',
+  NoDup (map fst (align s)) -> b1 <> b2 -> align s <> [] ->
+  join_align s b1 b2 zero1 = Ok s' ->
+  align_of s' b1 = Z.max (align_of s b1) (align_of s b2) /\
+  aget b2 (align s') = None /\
+  (forall b, b <> b1 -> b <> b2 -> aget b (align s') = aget b (align s)) /\
+  (align_of s b2 > align_of s b1 -> zero1 = true).
+Proof. exact join_align_spec. Qed.
+
+Theorem C10_join_refuses_to_weaken_an_alignment : forall s b1 b2,
+  align s <> [] -> align_of s b2 > align_of s b1 -> join_align s b1 b2 false = Err AssertErr.
+Proof. exact join_align_refuses. Qed.
+
+Theorem C10_join_without_alignment_table : forall s b1 b2 zero1, align s = [] -> join_align s b1 b2 zero1 = Ok s.
+Proof. exact join_align_no_table. Qed.
